@@ -18,7 +18,7 @@ func init() {
 		id:    "C18",
 		level: "exploration",
 		rule: "seeded syntactically valid specifications (every declaration kind, nesting to depth 4, empty rules, optional semicolons present/absent, comments and varied separators) are parsed by the REAL lexer+parser through Parse(tokenF, prodF) and ParseAndEvaluate(eval); the recorded callback log (kind, token lexeme+position | production index, argument values and positions) must equal the post-order of the reference reader's tree; " +
-			"then for EVERY step n of the log a second run whose n-th callback returns a sentinel error must log nothing after step n and return an error satisfying errors.Is(err, sentinel). non-trivial = log has >= 10 events and >= 1 epsilon reduction; distinct by text.",
+			"the evaluation is repeated with callbacks that return (nil, nil) for half / the other half / all of the reductions (the head's value must then be nil, the positions unchanged); then for EVERY step n of the log a second run whose n-th callback returns a sentinel error must log nothing after step n and return an error satisfying errors.Is(err, sentinel). non-trivial = log has >= 10 events and >= 1 epsilon reduction; distinct by text.",
 		assumptions: []string{"reference derivation = greedy recursive-descent reading of the documented grammar (R1), cross-validated against the tables by C04", "texts are valid specifications (syntactically); invalid ones are C20's"},
 		floorQuick:  3000, floorThorough: 50000,
 		run: runC18,
@@ -85,6 +85,12 @@ type evalCall struct {
 
 // runEvaluate runs ParseAndEvaluate; failAt >= 0 makes the failAt-th evaluation return the sentinel.
 func runEvaluate(text string, failAt int) (calls []evalCall, final *lr.Value, err error, panicked any) {
+	return runEvaluateNil(text, failAt, nil)
+}
+
+// runEvaluateNil: as runEvaluate; the calls n for which nilAt(n) holds return (nil, nil) - a callback that has nothing to
+// say about a production. The value of such a head is nil, whatever its body was.
+func runEvaluateNil(text string, failAt int, nilAt func(n int) bool) (calls []evalCall, final *lr.Value, err error, panicked any) {
 	panicked, _ = safely(func() {
 		p, e := eparser.New(fileName, strings.NewReader(text))
 		if e != nil {
@@ -102,6 +108,9 @@ func runEvaluate(text string, failAt int) (calls []evalCall, final *lr.Value, er
 			n++
 			if n-1 == failAt {
 				return nil, errSentinel
+			}
+			if nilAt != nil && nilAt(n-1) {
+				return nil, nil
 			}
 			return tag, nil
 		})
@@ -130,6 +139,10 @@ func renderValue(v *lr.Value) string {
 
 // expectedEvaluate computes, from the reference tree, the calls the evaluation callback must receive.
 func expectedEvaluate(root *rnode, toks []rtok) []evalCall {
+	return expectedEvaluateNil(root, toks, nil)
+}
+
+func expectedEvaluateNil(root *rnode, toks []rtok, nilAt func(n int) bool) []evalCall {
 	var calls []evalCall
 	type val struct {
 		s   string // rendering without position
@@ -152,6 +165,9 @@ func expectedEvaluate(root *rnode, toks []rtok) []evalCall {
 		}
 		id := len(calls)
 		calls = append(calls, evalCall{Prod: n.Prod, Args: args})
+		if nilAt != nil && nilAt(id) {
+			return val{"nil", pos}
+		}
 		return val{fmt.Sprintf("value#%d(prod %d)", id, n.Prod), pos}
 	}
 	walk(root)
@@ -274,6 +290,36 @@ func c18One(c *ctx, name, text string, inject bool) {
 	if tag, ok := final.Val.(*evalTag); !ok || tag != calls[len(calls)-1].Ret {
 		c.violate(violation{Case: name, Input: text, Observed: "final value " + renderValue(final), Expected: "the value returned for production 0 (the root)"})
 		return
+	}
+	// the same with callbacks that return (nil, nil) for some reductions: the head's value is then nil
+	for _, mask := range []uint64{0xAAAAAAAAAAAAAAAA, 0x5555555555555555 ^ uint64(len(text))*0x9E3779B97F4A7C15, ^uint64(0)} {
+		nilAt := func(n int) bool { return mask>>(uint(n)%64)&1 == 1 }
+		calls2, final2, err, pv := runEvaluateNil(text, -1, nilAt)
+		if pv != nil {
+			c.inconclusive("panic (C14's business)")
+			return
+		}
+		want2 := expectedEvaluateNil(rd.Root, rd.Scan.Toks, nilAt)
+		if err != nil || len(calls2) != len(want2) {
+			c.violate(violation{Case: name + "/nil-results", Input: text, Observed: fmt.Sprintf("%d evaluation calls, error %v", len(calls2), err), Expected: fmt.Sprintf("%d calls, accepted", len(want2))})
+			return
+		}
+		for i := range calls2 {
+			if calls2[i].Prod != want2[i].Prod || strings.Join(calls2[i].Args, " , ") != strings.Join(want2[i].Args, " , ") {
+				c.violate(violation{Case: name + "/nil-results", Input: map[string]any{"text": text, "calls_returning_nil_mask": fmt.Sprintf("%#x", mask)}, Observed: fmt.Sprintf("evaluation call #%d: production %d with arguments [%s]", i, calls2[i].Prod, strings.Join(calls2[i].Args, " , ")),
+					Expected: fmt.Sprintf("production %d with arguments [%s] (a callback that returned nil gives its head the value nil)", want2[i].Prod, strings.Join(want2[i].Args, " , "))})
+				return
+			}
+		}
+		if final2 == nil {
+			c.violate(violation{Case: name + "/nil-results", Input: text, Observed: "nil result value without error", Expected: "the root value (a *Value whose Val may be nil)"})
+			return
+		}
+		if rootNil := nilAt(len(calls2) - 1); rootNil != (final2.Val == nil) {
+			c.violate(violation{Case: name + "/nil-results", Input: text, Observed: "final value " + renderValue(final2), Expected: fmt.Sprintf("nil root value: %v", rootNil)})
+			return
+		}
+		c.count("evaluation_calls_observed_with_nil_results", int64(len(calls2)))
 	}
 	if c.res.Evaluations%211 == 1 {
 		c.sample(map[string]any{"text": text, "callbacks": len(got), "first_events": fmt.Sprint(got[:min(8, len(got))])})
